@@ -557,6 +557,194 @@ def c06(ctx):
                   "balance and rc <= 9 (abort unreachable)")
 
 
+def c11(ctx):
+    import re
+    sd = vlib.spec_dir(ctx)
+    b = build(ctx, "default", 0)
+    # program 1: the compiled table, dumped through the exported symbol + is_tld on every row / near-row
+    vec = ctx.path("table.vec")
+    open(vec, "w").write('"[15]"\n')
+    res = replay(ctx, b, vec, "table")
+    crash_violation(ctx, res, ["C06", "C11"])
+    trace = ctx.path("table-trace.ndjson")
+    out = open(trace, "w")
+    out.write(open(os.path.join(res["outdir"], "table.ndjson")).read())
+    # programs 2 and 3: the repository's generators re-run on the shipped CSVs (Text::CSV stand-in on perl -I)
+    g = ctx.path("gen", "x")[:-2]
+    subprocess.run(["rsync", "-a", "--exclude", ".git", "--exclude", "*.o", "--exclude", "*.a", "--exclude", "*.so", "--exclude", "*.bin",
+                    vlib.REPO + "/", g + "/"], check=True)
+    shim = os.path.join(vlib.VERIF, "harness", "perl-shim")
+    textual = []
+    r1 = subprocess.run(["perl", "-I" + shim, "util/gentld.pl", "include/eav/auto_tld.h", "src/auto_tld.c", "data/punycode.csv"],
+                        cwd=g, stdout=subprocess.PIPE, stderr=subprocess.STDOUT, text=True)
+    r2 = subprocess.run(["perl", "-I" + shim, "util/gen_utf8_pass_test.pl", "data/tld-domains.txt", "data/raw.csv"],
+                        cwd=g, stdout=subprocess.PIPE, stderr=subprocess.STDOUT, text=True)
+    if r1.returncode or r2.returncode:
+        add_violation(ctx, "C11", "generator fails on the shipped CSV", {"gentld": r1.stdout[-800:], "gen_utf8_pass_test": r2.stdout[-800:]})
+    else:
+        i = 0
+        for line in open(os.path.join(g, "src", "auto_tld.c"), encoding="utf-8", errors="replace"):
+            m = re.match(r'\s*\{ "([^"]*)", (\d+), (\w+) \},', line)
+            if m:
+                i += 1
+                ty = {"TLD_TYPE_NOT_ASSIGNED": 1, "TLD_TYPE_COUNTRY_CODE": 2, "TLD_TYPE_GENERIC": 3, "TLD_TYPE_GENERIC_RESTRICTED": 4,
+                      "TLD_TYPE_INFRASTRUCTURE": 5, "TLD_TYPE_SPONSORED": 6, "TLD_TYPE_TEST": 7, "TLD_TYPE_SPECIAL": 8,
+                      "TLD_TYPE_RETIRED": 9}.get(m.group(3), -1)
+                out.write(json.dumps({"e": "row", "src": "generated", "i": i, "term": 0, "d": list(m.group(1).encode()),
+                                      "len": int(m.group(2)), "type": ty}) + "\n")
+            elif re.match(r"\s*\{ NULL, 0, 0 \}", line):
+                out.write(json.dumps({"e": "row", "src": "generated", "i": i + 1, "term": 1, "d": [], "len": 0, "type": 0}) + "\n")
+        out.write(json.dumps({"e": "count", "src": "generated", "n": i}) + "\n")
+        j = 0
+        for line in open(os.path.join(g, "data", "tld-domains.txt"), "rb"):
+            j += 1
+            out.write(json.dumps({"e": "row", "src": "domains", "i": j, "term": 0, "d": list(line.rstrip(b"\n")), "len": 0, "type": 0}) + "\n")
+        out.write(json.dumps({"e": "count", "src": "domains", "n": j}) + "\n")
+        # regenerated artefacts must reproduce the shipped ones (generation timestamp aside)
+        def lines(p, skip_ts):
+            ls = open(p, "rb").read().split(b"\n")
+            return [x for x in ls if not (skip_ts and x.startswith(b"/* this file was auto-generated at"))]
+        for rel, ts in (("src/auto_tld.c", True), ("include/eav/auto_tld.h", False), ("data/tld-domains.txt", False)):
+            a, bb = lines(os.path.join(vlib.REPO, rel), ts), lines(os.path.join(g, rel), ts)
+            ctx.cov["evaluations"] += len(a)
+            ctx.cov["distinct_nontrivial"] += len(a)
+            if a != bb:
+                k = next((x for x in range(min(len(a), len(bb))) if a[x] != bb[x]), min(len(a), len(bb)))
+                add_violation(ctx, "C11", "re-running the generator does not reproduce the shipped file",
+                              {"file": rel, "first_differing_line": k + 1, "shipped": a[k][:200].decode(errors="replace") if k < len(a) else None,
+                               "regenerated": bb[k][:200].decode(errors="replace") if k < len(bb) else None})
+    out.close()
+    n, bad = validate_trace(ctx, "Trace_Table", trace, workers=1)
+    for (ln, ev, note) in bad:
+        ev2 = dict(ev)
+        if "d" in ev2:
+            ev2["text"] = vlib.bytes_to_text(ev2["d"])
+        if "in" in ev2:
+            ev2["text"] = vlib.bytes_to_text(ev2["in"])
+        add_violation(ctx, "C11", "table event contradicts data/punycode.csv: %s/%s" % (ev.get("e"), ev.get("src", "is_tld")), ev2)
+    add_sample(ctx, open(trace).readline().strip())
+    add_sample(ctx, "programs: compiled tld_list[] (via exported symbol + is_tld), util/gentld.pl output, util/gen_utf8_pass_test.pl output")
+    shutil_rm(g)
+    return finish(ctx, "translation_validation",
+                  "the CSV of the tree under test is the specification (TldData + ClassOfRow); three programs are validated against it row "
+                  "by row by TLC (Trace_Table): the compiled tld_list[] (every row: label, length = strlen+1, class, order, terminator, "
+                  "count; is_tld on every label and on 4 variations of it), the output of util/gentld.pl re-run on the shipped CSV, the "
+                  "output of util/gen_utf8_pass_test.pl; plus line-by-line comparison of the regenerated files with the shipped ones",
+                  extra_cov={"programs": 3, "disagreements_checked": n})
+
+
+def shutil_rm(p):
+    import shutil
+    shutil.rmtree(p, ignore_errors=True)
+
+
+def writable_statics(b):
+    """symbols with storage in writable sections of the library objects of build b (schedule-independent evidence)"""
+    objs = subprocess.run(["ar", "t", b["lib"]], stdout=subprocess.PIPE, text=True, check=True).stdout.split()
+    syms, undef = [], set()
+    work = os.path.join(os.path.dirname(b["dir"]), "objs-" + b["name"])
+    os.makedirs(work, exist_ok=True)
+    subprocess.run(["ar", "x", b["lib"]], cwd=work, check=True)
+    for o in sorted(set(objs)):
+        r = subprocess.run(["objdump", "-t", os.path.join(work, o)], stdout=subprocess.PIPE, text=True).stdout
+        for line in r.splitlines():
+            f = line.split()
+            if len(f) >= 5 and f[-3] in (".data", ".bss", ".tdata", ".tbss", ".data.rel", ".data.rel.local", "COM", "*COM*"):
+                try:
+                    size = int(f[-2], 16)
+                except ValueError:
+                    continue
+                if size > 0 and not f[-1].startswith("."):
+                    syms.append("%s:%s(%s,%d)" % (o, f[-1], f[-3], size))
+            if "*UND*" in line:
+                undef.add(f[-1])
+        h = subprocess.run(["objdump", "-h", os.path.join(work, o)], stdout=subprocess.PIPE, text=True).stdout
+        for line in h.splitlines():
+            f = line.split()
+            if len(f) >= 3 and f[1] in (".data", ".bss", ".tdata", ".tbss", ".data.rel", ".data.rel.local") and int(f[2], 16) > 0:
+                tag = "%s:<section %s,%d>" % (o, f[1], int(f[2], 16))
+                if not any(s.startswith(o + ":") for s in syms):
+                    syms.append(tag)
+    shutil_rm(work)
+    sync = sorted(u for u in undef if any(k in u for k in ("pthread_mutex", "pthread_once", "pthread_rwlock", "__atomic", "pthread_spin", "call_once", "mtx_")))
+    return syms, sync
+
+
+def c14(ctx):
+    q = ctx.quick()
+    b = build(ctx, "default", 0)
+    syms, sync = writable_statics(b)
+    ctx.cov["writable_static_storage"] = syms
+    ctx.cov["synchronisation_symbols_referenced"] = sync
+    # design level: all interleavings of overlapping calls; the library's writable static storage is taken from the build
+    sw = "{" + ", ".join('"%s"' % s.replace('"', "") for s in syms) + "}"
+    r = vlib.tlc(ctx, "Threads", "CONSTANTS\n  NThreads = %d\n  NCalls = %d\n  SharedWritable = %s\nSPECIFICATION Spec\n"
+                 "INVARIANT NoDataRace\nINVARIANT Sequential\nCHECK_DEADLOCK FALSE\n" % (3, 2 if q else 3, sw))
+    ctx.cov["states"] += r["distinct"]
+    ctx.cov["transitions"] += r["generated"]
+    if r["rc"] != 0:
+        if "Invariant NoDataRace is violated" in r["tail"]:
+            if not sync:
+                add_violation(ctx, "C14", "the library has writable static storage and references no synchronisation primitive: "
+                              "two overlapping calls conflict on it in the interleaving TLC found",
+                              {"writable_static_storage": syms, "tlc": r["tail"][-1500:]})
+            else:
+                ctx.cov["note"] = "writable statics exist but synchronisation primitives are referenced: left to the race detector"
+        else:
+            raise Infra("Threads model failed: " + r["tail"][-2000:])
+    # executions: the address vectors run concurrently (TSan build and default build)
+    r1 = tlc_ok(ctx, "MC_Email", cfg({"MaxLen": 0, "Gen": 2, "OptBits": 0}))
+    r2 = tlc_ok(ctx, "MC_Email", cfg({"MaxLen": 4, "Gen": 1, "OptBits": 0}))
+    r3 = tlc_ok(ctx, "MC_Tld", cfg({"Part": 2, "RowMod": 8, "RowRem": 0}))
+    vec = ctx.path("threads.vec")
+    with open(vec, "w") as f:
+        for r_ in (r1, r2, r3):
+            for line in open(r_["out"], errors="replace"):
+                if line.startswith('"[5,'):
+                    f.write(line)
+    sample_vectors(ctx, vec)
+    for variant, nth, rounds in (("tsan", 4 if q else 16, 1 if q else 2), ("default", 8 if q else 16, 3 if q else 20)):
+        bb = build(ctx, variant, 0)
+        exe = vlib.compile_driver(ctx, bb, "threads.c")
+        od = ctx.path("threads-" + variant, "x")[:-2]
+        rc, so, se = vlib.run_driver(ctx, exe, [od, str(nth), str(rounds)], stdin_path=vec, timeout=2500)
+        if rc == 2:
+            raise Infra("threads driver: " + se[-1500:])
+        if rc != 0 or "WARNING: ThreadSanitizer" in se:
+            add_violation(ctx, "C14", "ThreadSanitizer report / abnormal exit (%s) while %d threads validate concurrently" % (rc, nth),
+                          {"build": variant, "report": se[:3000]})
+            continue
+        sm = json.load(open(os.path.join(od, "summary.json")))
+        ctx.cov["evaluations"] += sm["calls"]
+        ctx.cov["distinct_nontrivial"] += sm["addresses"] * 8
+        ctx.cov["replays"].append({"tag": "threads-" + variant, **sm})
+        ctx.cov["traces_validated_against_impl"] += nth
+        if sm["mismatches"]:
+            bad = [json.loads(x) for x in open(os.path.join(od, "threads.ndjson"))][:20]
+            add_violation(ctx, "C14", "a thread obtained an outcome different from the single-threaded run", {"build": variant, "cases": bad})
+    return finish(ctx, "model_checking",
+                  "TLC explores all interleavings of overlapping calls of 3 threads with the library's writable static storage extracted from "
+                  "the object files of the build under test (objdump: .data/.bss/.tdata/.tbss symbols) - a conflict exists iff that set is "
+                  "non-empty and unsynchronised; the TLC-generated address vectors are validated concurrently by 4-16 threads (own eav_t each, "
+                  "shared read-only strings) in a ThreadSanitizer build and a default build and every outcome is compared with the "
+                  "single-threaded run")
+
+
+def c20(ctx):
+    import cli
+    q = ctx.quick()
+    r = tlc_ok(ctx, "MC_Cli", cfg({"MaxLines": 2 if q else 3, "Tier": 1 if q else 2}), heap="10g")
+    cli.run_cli(ctx, "default", r["out"], "default")
+    r2 = tlc_ok(ctx, "MC_Cli", cfg({"MaxLines": 1 if q else 2, "Tier": 1 if q else 2}), heap="10g")
+    cli.run_cli(ctx, "asan", r2["out"], "asan")
+    return finish(ctx, "model_checking",
+                  "TLC enumerates every file of at most MaxLines lines over the line shapes of MC_Cli (empty, blanks, comments, valid / invalid "
+                  "addresses, trailing / leading blanks, CR inside, ill-formed UTF-8 at even and odd offsets, control characters, NUL, 2047..8192 "
+                  "byte lines, 600 control characters) x {LF, CR LF, no final newline}; Cli.tla pins per line: comment or not, the address handed "
+                  "to the library, the echo; the real eav tool is run on each file (default and ASan+UBSan builds) and its stdout / exit "
+                  "status compared; verdict and message compared with eav_is_email under default settings on the pinned address")
+
+
 def c17(ctx):
     q = ctx.quick()
     # the Makefile's defaults: all three options OFF
@@ -681,8 +869,8 @@ def c03(ctx):
                   "decision compared with well-formed-UTF-8 + RFC 5321 grammar over code points")
 
 
-PROPS = {"C01": c01, "C02": c02, "C03": c03, "C04": c04, "C05": c05, "C07": c07, "C08": c08, "C09": c09,
-         "C06": c06, "C12": c12, "C13": c13, "C15": c15, "C16": c16, "C17": c17, "C18": c18, "C19": c19}
+PROPS = {"C01": c01, "C02": c02, "C03": c03, "C04": c04, "C05": c05, "C07": c07, "C08": c08, "C09": c09, "C11": c11,
+         "C06": c06, "C12": c12, "C13": c13, "C14": c14, "C15": c15, "C16": c16, "C17": c17, "C18": c18, "C19": c19, "C20": c20}
 
 
 def replay_file(ctx, path):
